@@ -63,9 +63,12 @@ Definition tdump_eqb (a b : tdump) : bool :=
 Definition first_val (n : notif) : tv :=
   match n_upd n with u :: _ => u_val u | [] => TVnil end.
 
+(** a target registered under the empty name cannot be queried
+    (Cache.Query rejects ""), so it is not part of the dump *)
 Definition model_dump (c : cstate) : tdump :=
   map (fun kt => (fst kt, map (fun pn => (fst pn, n_ts (snd pn), first_val (snd pn)))
-                              (dump_target (snd kt)))) c.
+                              (dump_target (snd kt))))
+      (filter (fun kt => negb (String.eqb (fst kt) "")) c).
 
 Inductive iop :=
 | IMsg (n : notif)
@@ -225,7 +228,8 @@ Inductive case :=
 | CRecv (jvalid : list string) (qt : qtype) (rs : list resp)
         (o : oclass) (evs : list event) (leaves : list path)
 | CCli (jvalid : list string) (dt : dtype) (qt : qtype) (with_ts : bool) (rs : list resp)
-       (o : oclass) (recs : list drec).
+       (o : oclass) (recs : list drec)
+| CMgr (rs : list (resp * (oclass * N))).   (* per response: outcome, callback (0 none, 1 update, 2 sync) *)
 
 Definition jv_of (l : list string) (s : string) : bool := existsb (String.eqb s) l.
 
@@ -257,11 +261,27 @@ Definition drec_eqb (a b : drec) : bool :=
   | _, _ => false
   end.
 
+Definition mgr_code (o : outcome mgr_event) : N :=
+  match o with Ok MUpdate => 1%N | Ok MSync => 2%N | _ => 0%N end.
+
+Fixpoint check_mgr (i : nat) (rs : list (resp * (oclass * N))) : list (nat * N) :=
+  match rs with
+  | [] => []
+  | (r, (o, code)) :: rest =>
+      let m := manager_handle r in
+      (if oclass_eqb o (oclass_of m) && N.eqb code (mgr_code m) then [] else [(i, 1%N)]) ++
+      (match o with OPanic => [(i, 2%N)] | _ => [] end) ++
+      check_mgr (S i) rest
+  end.
+
 Definition check_case (c : case) : list (nat * N) :=
   match c with
   | CIngest targets steps =>
       let c0 := new_cstate targets in
-      check_ingest 0 c0 (model_dump c0) steps
+      let res := check_ingest 0 c0 (model_dump c0) steps in
+      (* a target registered under the empty name (an operator's doing) is
+         outside the property: only the correspondence is checked *)
+      if existsb (String.eqb "") targets then filter (fun r => N.eqb (snd r) 1) res else res
   | CSub e f o code synced =>
       let m := subscribe e f in
       (if oclass_eqb o (oclass_of m) && N.eqb code (sub_code m) &&
@@ -286,6 +306,7 @@ Definition check_case (c : case) : list (nat * N) :=
        | OPanic => map (fun t => (0%nat, t)) (panic_tag (if class_cli dt rs then 5%N else 0%N))
        | _ => []
        end)
+  | CMgr rs => check_mgr 0 rs
   end.
 
 Fixpoint check_all_from (i : nat) (cs : list case) : list (nat * nat * N) :=
